@@ -20,13 +20,16 @@ G = pg.geno
 
 
 # ---------------------------------------------------------------------------
-def mk(d, names=False, literals=False, counter=None):
+def mk(d, names=False, literals=False, counter=None, loc=None):
+  """Builds the pg.geno spec; every decision point gets a distinct relative location (as pg.dna_spec does)."""
   counter = counter if counter is not None else [0]
   if d[0] == 'space':
-    return G.space([mk(e, names, literals, counter) for e in d[1]])
+    return G.space([mk(e, names, literals, counter, f'x{j}') for j, e in enumerate(d[1])])
   if d[0] == 'c':
     return G.constant()
   kw = {}
+  if loc is not None:
+    kw['location'] = pg.KeyPath(loc)
   if names:
     counter[0] += 1
     kw['name'] = f'dp{counter[0]}'
